@@ -16,6 +16,9 @@ class Untranslatable(Exception):
     pass
 
 
+KNOWN_ENUMS = {"Option": ["None", "Some"], "Result": ["Ok", "Err"], "ControlFlow": ["Continue", "Break"]}
+
+
 # ------------------------------------------------------------------------------------------------
 # parsing
 
@@ -432,6 +435,11 @@ class Executor:
         self.invalidate_aliases(st, key)
         st.store[key] = val
 
+    def clear_prefix(self, st, pre):
+        for k in [k for k in st.store if has_prefix(k, pre)]:
+            del st.store[k]
+        st.alias.pop(pre, None)
+
     def copy_aggregate(self, st, dst, src):
         if dst == src:
             return
@@ -476,7 +484,7 @@ class Executor:
             key = place.key()
             if key in st.refs:
                 return ("ref", st.refs[key])
-            if ty.strip().startswith("&"):
+            if ty.strip().startswith(("&", "*const", "*mut", "std::ptr::NonNull<", "NonNull<")):
                 # reference-typed argument: a pointer to memory rooted at its own name
                 return ("ref", Place("*" + key))
             return ("agg", place, ty)
@@ -601,11 +609,19 @@ class Executor:
             else:
                 put(Val("(bvneg %s)" % v.t, v.s))
             return
-        m = re.match(r"^(.*) as ([\w]+) \((\w+)\)$", rhs)
+        m = re.match(r"^(.*) as (.+?) \((\w+)\)$", rhs)
         if m:
+            v = self.operand(st, fn, m.group(1), frame)
+            if not isinstance(v, Val) and v[0] == "ref" and m.group(3) in ("Transmute", "PtrToPtr", "MutToConstPointer", "Unsize"):
+                st.refs[dst.key()] = v[1]
+                return
+            if not isinstance(v, Val) and v[0] == "agg" and m.group(3) == "Transmute" and m.group(2).strip().startswith(("*const", "*mut", "&")):
+                # single-pointer wrapper (NonNull / Unique) reinterpreted as a raw pointer
+                st.refs[dst.key()] = Place("*" + v[1].key())
+                return
             if m.group(3) not in ("IntToInt",):
                 raise Untranslatable("cast kind " + m.group(3))
-            put(self.cast(self.operand(st, fn, m.group(1), frame), m.group(2)))
+            put(self.cast(v, m.group(2)))
             return
         if rhs.startswith("no_retag "):
             rhs = rhs[len("no_retag "):]
@@ -614,7 +630,14 @@ class Executor:
                 c = rhs[6:].strip()
                 mm = re.match(r"^Option::<.*>::None$", c)
                 if mm:
+                    self.clear_prefix(st, dst.key())
                     st.store[dst.key() + "#discr"] = Val(bvconst(0, 64), ("bv", 64, True))
+                    return
+                mm = re.match(r"^(?:[\w:]*::)?(Result|Option|ControlFlow)::<.*?>::(\w+)\(", c)
+                if mm:
+                    table = KNOWN_ENUMS[mm.group(1)]
+                    self.clear_prefix(st, dst.key())
+                    st.store[dst.key() + "#discr"] = Val(bvconst(table.index(mm.group(2)), 64), ("bv", 64, True))
                     return
                 if c == "()":
                     return
@@ -634,6 +657,22 @@ class Executor:
                     elif v[0] == "ref":
                         st.refs[dst.key() + ".%d" % i] = v[1]
                 return
+        m = re.match(r"^(.+?) \{ (.*) \}$", rhs)
+        if m and not rhs.startswith("const"):
+            # struct / closure literal with named fields: fields are addressed by index in MIR
+            self.clear_prefix(st, dst.key())
+            for i, part in enumerate(split_top(m.group(2))):
+                fm = re.match(r"^(\w+): (.*)$", part)
+                if not fm:
+                    raise Untranslatable("struct literal field: " + part)
+                v = self.operand(st, fn, fm.group(2), frame)
+                if isinstance(v, Val):
+                    st.store[dst.key() + ".%d" % i] = v
+                elif v[0] == "agg":
+                    self.copy_aggregate(st, dst.key() + ".%d" % i, v[1].key())
+                elif v[0] == "ref":
+                    st.refs[dst.key() + ".%d" % i] = v[1]
+            return
         m = re.match(r"^\[(.*)\]$", rhs)
         if m:
             parts = split_top(m.group(1))
@@ -652,8 +691,7 @@ class Executor:
                 tyname, variant = None, None
                 base = dst.key()
             else:
-                known = {"Option": ["None", "Some"], "Result": ["Ok", "Err"]}
-                table = known.get(tyname) or self.enums.get(tyname)
+                table = KNOWN_ENUMS.get(tyname) or self.enums.get(tyname)
                 if table is None or variant not in table:
                     raise Untranslatable("enum constructor %s::%s" % (tyname, variant))
                 st.store[dst.key() + "#discr"] = Val(bvconst(table.index(variant), 64), ("bv", 64, True))
@@ -718,15 +756,21 @@ class Executor:
         dsort = sort_of_type(dty) if dty else None
         desc = [self.describe_arg(st, a) for a in args]
         pure = any(r.search(short) for r in self.pure)
+        if pure and dsort is None:
+            # pure call with an aggregate result: no memory is havocked, the result is unconstrained
+            for k in [k for k in st.store if has_prefix(k, dst.key())]:
+                del st.store[k]
+            st.alias.pop(dst.key(), None)
+            st.epoch[dst.key()] = st.epoch.get(dst.key(), 0) + 1
+            st.calls.append((short, desc, dst.key(), None))
+            return None
         if pure:
-            if dsort is None:
-                raise Untranslatable("pure call with aggregate result: " + callee)
             # uninterpreted: same callee + same argument identities/terms => same result variable
             sig = short + "(" + ",".join(d[1].t if d[0] == "val" else str(d[1]) for d in desc) + ")"
             name = "|call:%s|" % sig.replace("|", "/")
             self.decls[name] = dsort
             st.store[dst.key()] = Val(name, dsort)
-            st.calls.append((short, desc, name))
+            st.calls.append((short, desc, name, None))
             return None
         # havoc result and everything reachable through reference arguments (or, if the query
         # declares what the callee may modify, only that)
@@ -827,9 +871,21 @@ class Executor:
             if m:
                 bb = m.group(2)
                 continue
-            m = re.match(r"^(.*?) = (.*?)\((.*)\) -> \[return: (bb\d+), unwind.*\]$", term)
-            if m:
-                dst_text, callee, argtext, nxt = m.group(1), m.group(2), m.group(3), m.group(4)
+            m = re.match(r"^(.*?) = (.*) -> \[return: (bb\d+), unwind.*\]$", term)
+            if m and m.group(2).endswith(")"):
+                dst_text, nxt = m.group(1), m.group(3)
+                callexpr = m.group(2)
+                # split `callee(args)` at the parenthesis matching the final one
+                depth, k = 0, len(callexpr) - 1
+                while k >= 0:
+                    if callexpr[k] == ")":
+                        depth += 1
+                    elif callexpr[k] == "(":
+                        depth -= 1
+                        if depth == 0:
+                            break
+                    k -= 1
+                callee, argtext = callexpr[:k], callexpr[k + 1:-1]
                 r = self.do_call(st, fn, dst_text, callee, split_top(argtext), frame)
                 if r is not None:
                     _, cfn, args = r
